@@ -3,6 +3,7 @@ import Ecal.Model.LexerSpec
 import Ecal.Lemmas.LexerPos
 import Ecal.Lemmas.LexerSteps
 import Ecal.Lemmas.LexerInv
+import Ecal.Gen.C18
 /-!
 # C18 — tokens, errors and breakpoints carry the true source position
 
@@ -224,5 +225,23 @@ example : ((lex [105, 102, 32, 97, 32, 47, 42, 32, 99, 32, 42, 47, 32, 49, 50]).
     fun t => (t.id, t.pos, t.val)) =
     [(63, 0, [105, 102]), (tIDENTIFIER, 3, [97]), (tPRECOMMENT, 7, [32, 99, 32]), (tNUMBER, 13, [49, 50]), (tEOF, 13, [])] := by
   decide +kernel
+
+/-! ## Errors, stack traces and break points copy the token's position (regenerated source fact) -/
+
+/-- **errors_carry_token_pos (source fact, regenerated from the tree under test on every run by
+    `harness C18 -tool extract`, go/ast).** No site that copies a token position into something the
+    user sees is refuted, and the decisive sites are established: every construction of
+    `parser.Error` / `util.RuntimeError` takes Line / Pos from `Lline` / `Lpos` of ONE token (or 0, 0
+    when there is no token); both `Error()` methods print Line before Pos from the struct's own
+    fields; stack trace entries print `Token.Lline`; the debugger keys break points on
+    `Token.Lsource : Token.Lline` and on the `source : line` it is given; the except object's
+    `line` / `pos` are the error's `Line` / `Pos`. Together with `token_positions_true_partial` this is
+    the error / break point clause up to the two known findings; a site of UNKNOWN shape (verdict 2)
+    breaks nothing here and is reported in the evidence. The planted-error and break point cases
+    (kinds E, B) observe the same at run time. -/
+theorem errors_carry_token_pos :
+    (Ecal.Gen.C18.sites.all fun s => s.2.1 != 1) = true ∧
+    ([1, 2, 3, 4, 6, 7, 8, 9, 10].all fun k => Ecal.Gen.C18.sites.any fun s => s.1 == k && s.2.1 == 0) = true := by
+  decide
 
 end Ecal.Props.C18
